@@ -68,6 +68,9 @@ pub use rounding::{
 mod parser;
 mod powers_of_ten;
 mod rounding;
+#[cfg(all(fpdec_verif, feature = "std"))]
+#[doc(hidden)]
+pub mod verif;
 
 /// The maximum number of fractional decimal digits supported by `Decimal`.
 pub const MAX_N_FRAC_DIGITS: u8 = 18;
@@ -353,6 +356,8 @@ fn u256_idiv_u128_special(xh: &mut u128, xl: &mut u128, mut y: u128) -> u128 {
     // so that
     // q1 * yn1 * 2^64 + rhat * 2^64 + xn1 = xn32 * 2^64 + xn1
     while q1 >= B || q1 * yn0 > rhat * B + xn1 {
+        #[cfg(all(fpdec_verif, feature = "std"))]
+        crate::verif::emit(crate::verif::Event::Path("wdiv:q1corr"));
         q1 -= 1;
         rhat += yn1;
         if rhat >= B {
@@ -378,6 +383,8 @@ fn u256_idiv_u128_special(xh: &mut u128, xl: &mut u128, mut y: u128) -> u128 {
     let mut q0 = t / yn1;
     rhat = t % yn1;
     while q0 >= B || q0 * yn0 > rhat * B + xn0 {
+        #[cfg(all(fpdec_verif, feature = "std"))]
+        crate::verif::emit(crate::verif::Event::Path("wdiv:q0corr"));
         q0 -= 1;
         rhat += yn1;
         if rhat >= B {
@@ -399,11 +406,17 @@ fn u256_idiv_u128_special(xh: &mut u128, xl: &mut u128, mut y: u128) -> u128 {
 #[allow(clippy::cast_possible_truncation)]
 fn u256_idiv_u128(xh: &mut u128, xl: &mut u128, y: u128) -> u128 {
     if u128_hi(y) == 0 {
+        #[cfg(all(fpdec_verif, feature = "std"))]
+        crate::verif::emit(crate::verif::Event::Path("wdiv:u64"));
         return u256_idiv_u64(xh, xl, u128_lo(y) as u64);
     }
     if *xh < y {
+        #[cfg(all(fpdec_verif, feature = "std"))]
+        crate::verif::emit(crate::verif::Event::Path("wdiv:special"));
         return u256_idiv_u128_special(xh, xl, y);
     }
+    #[cfg(all(fpdec_verif, feature = "std"))]
+    crate::verif::emit(crate::verif::Event::Path("wdiv:twostep"));
     let mut t = *xh % y;
     let r = u256_idiv_u128_special(&mut t, xl, y);
     *xh /= y;
